@@ -80,6 +80,7 @@ theorem splice_spec (s : St) (l1 l2 : Hdr) (cs1 cs2 : List Cell) (m : Mem) (R : 
   · have hs1 : ¬ l1.size = 0 := by rw [R.r1.size]; exact fun e => hc1 (List.eq_nil_of_length_eq_zero e)
     simp only [hs1, if_false]
     rw [R.r1.tail, R.r2.head]
+    simp only [tail_live R.r1.seg hc1, Mem.check_true]
     refine ⟨_, _, _, rfl, ⟨⟨?_, join_end R.r1.seg R.r2.seg R.r1.nodup R.disj, ?_, ?_, ?_⟩, ?_, fun _ _ hm => by cases hm⟩, rfl, rfl, ?_⟩
     · simp only [idsOf_append]; rw [List.nodup_append]
       exact ⟨R.r1.nodup, R.r2.nodup, fun x hx y hy e => R.disj x hx (e ▸ hy)⟩
@@ -339,6 +340,7 @@ theorem addAll_spec (s : St) (l1 l2 : Hdr) (cs1 cs2 : List Cell) (m : Mem) (R : 
   · have hs1 : ¬ l1.size = 0 := by rw [R.r1.size]; exact fun e => hc1 (List.eq_nil_of_length_eq_zero e)
     simp only [hs1, if_false]
     rw [R.r1.tail, d7]
+    simp only [tail_live R.r1.seg hc1, Mem.check_true]
     refine ⟨k2, k3, ?_, fun _ => ⟨by first | trivial | rfl, nc, d1, fun x hx => ⟨d3 x hx, d4 x hx⟩, ⟨⟨?_, join_end hR1'.seg d6 R.r1.nodup dnc, ?_, ?_, ?_⟩, ?_, ?_⟩, rfl, ?_⟩⟩
     · intro hf; rw [← k1, hok] at hf; cases hf
     · simp only [idsOf_append]; rw [List.nodup_append]
